@@ -1,6 +1,6 @@
 """Source of MANIFEST.json (run ./tools_manifest.py after editing)."""
 
-FIX_COMMITS = ['aa8a796', 'e19c32a', '9330350', '8599158', '33efd15', '1cc24ab', '668079e', 'f34decb', 'f0c9eb4', 'f63685a', 'f41aea7', '4c9fae6', '89fa7aa', '44add83', '3e6a5c9', '24d79b7', '9b58b2c', '783304e', 'f6c2ece', '8bd765a', 'debc858', '096bb2b', '9bcdd72', 'af4b9f6', 'cef733f', 'a117c80', 'b164430']
+FIX_COMMITS = ['aa8a796', 'e19c32a', '9330350', '8599158', '33efd15', '1cc24ab', '668079e', 'f34decb', 'f0c9eb4', 'f63685a', 'f41aea7', '4c9fae6', '89fa7aa', '44add83', '3e6a5c9', '24d79b7', '9b58b2c', '783304e', 'f6c2ece', '8bd765a', 'debc858', '096bb2b', '9bcdd72', 'af4b9f6', 'cef733f', 'a117c80', 'b164430', '2fdc9c3']
 
 _ALL = ['C%02d' % i for i in range(1, 21)]
 
@@ -180,6 +180,18 @@ CHECKS.append(dict(
          'processes; floats to 1e-10, timestamps and ids normalised; retargeting is visible only through the name/docstring purpose '
          'rule. Three defects found were repaired (fix: commits).',
     technique='introspective discovery + differential property-based testing (Hypothesis): one sub-check per alias/keyword sweeping all receiver classes, fork isolation',
+))
+
+CHECKS.append(dict(
+    id='C06',
+    text='Differential checks on generated choice situations (as C05): nested logit with all nest parameters 1 vs logit; '
+         'cross-nested logit with disjoint nests and unit allocations vs nested logit; models with explicit scale 1 (number, '
+         'Numeric, fixed or free Beta) vs unscaled; legacy tuple syntax vs nest objects; for the nested logit the published '
+         'generating function is evaluated with the utilities as free parameters and ln(dG/dV_i) - V_i from the engine gradient is '
+         'compared with the published ln G_i, with alone alternatives and availabilities; G itself is compared with its definition.',
+    note='Both sides of each reduction go through the same compiled engine (1e-10 relative); the generating-function check trusts '
+         'the engine gradient (property C02) and the textbook definition of G. One defect found was repaired (fix: commit).',
+    technique='property-based testing (Hypothesis): differential between model functions, derivative-vs-published-term relation',
 ))
 
 _claimed = {c['id'] for c in CHECKS}
